@@ -10,7 +10,7 @@ use proptest::collection::vec;
 use proptest::prelude::*;
 use serde::{Deserialize, Serialize};
 use serde_json::Value;
-use unimock::Unimock;
+use unimock::{MockFn, Unimock};
 use vcore::panics::catch;
 use vcore::worker::{Reply, Worker};
 use vcore::{CaseInfo, Ctx, Verdict};
@@ -37,6 +37,26 @@ pub enum Ev {
     MakeRefClone(u8, u8),
     /// caught mock-induced panic (call to an unmentioned method of a strict mock)
     MockPanic(u8),
+    /// instance .0 is consumed by a provided by-value method whose body hands `self` on to a required
+    /// method of the same receiver kind (.1: 0 = `self`, 1 = sole-owner `Rc<Self>`, 2 = sole-owner
+    /// `Arc<Self>`): the instance ends its life inside that call
+    Consume(u8, u8),
+}
+
+#[unimock::unimock(api=ConsMock)]
+pub trait Cons: Sized {
+    fn rq_val(self, x: u8) -> u32;
+    fn df_val(self, x: u8) -> u32 {
+        self.rq_val(x) + 1
+    }
+    fn rq_rc(self: std::rc::Rc<Self>, x: u8) -> u32;
+    fn df_rc(self: std::rc::Rc<Self>, x: u8) -> u32 {
+        self.rq_rc(x) + 1
+    }
+    fn rq_arc(self: std::sync::Arc<Self>, x: u8) -> u32;
+    fn df_arc(self: std::sync::Arc<Self>, x: u8) -> u32 {
+        self.rq_arc(x) + 1
+    }
 }
 
 #[derive(Clone, Debug, PartialEq, Eq, Hash, Serialize, Deserialize)]
@@ -46,6 +66,10 @@ pub struct LifeCase {
     pub events: Vec<Ev>,
     /// instances still alive at the end are dropped in ascending (true) or descending index order
     pub drop_ascending: bool,
+    /// bit k set: the required by-value method of kind k (see Ev::Consume) is mentioned by a clause
+    /// (and must then be called at least once, like every mentioned method)
+    #[serde(default)]
+    pub consume_kinds: u8,
 }
 
 const MAX_INSTS: usize = 6;
@@ -88,11 +112,15 @@ struct LModel {
     errors: usize,
     expected: usize,
     verifications: usize,
+    consume_kinds: u8,
+    cons_calls: [usize; 3],
 }
 
 impl LModel {
-    fn new(expected: usize) -> Self {
+    fn new(expected: usize, consume_kinds: u8) -> Self {
         LModel {
+            consume_kinds,
+            cons_calls: [0; 3],
             insts: vec![MInst { alive: true, original: true, verify_in_drop: true, helper: false, chain: 0 }],
             live: 1,
             calls: 0,
@@ -127,7 +155,8 @@ impl LModel {
         if foreign_thread {
             return Out::PanicThread;
         }
-        let failed = self.errors > 0 || self.calls != self.expected || self.calls == 0;
+        let dead_cons = (0..3).any(|k| (self.consume_kinds >> k) & 1 == 1 && self.cons_calls[k] == 0);
+        let failed = self.errors > 0 || self.calls != self.expected || self.calls == 0 || dead_cons;
         match (failed, report) {
             (true, true) => Out::ReportFailure,
             (true, false) => Out::FailVerification,
@@ -239,6 +268,21 @@ impl LModel {
                     Out::Silent
                 }
             }
+            Ev::Consume(i, k) => {
+                let (i, k) = (idx(i), k as usize % 3);
+                if !self.alive(i) || (self.consume_kinds >> k) & 1 == 0 {
+                    return Out::Skipped;
+                }
+                // the body runs (required method counted), then the instance is dropped inside the call
+                self.cons_calls[k] += 1;
+                let out = if self.insts[i].verify_in_drop { self.teardown(i, false, false) } else { Out::Silent };
+                self.gone(i);
+                if out == Out::Silent {
+                    Out::CallOk
+                } else {
+                    out
+                }
+            }
         }
     }
 }
@@ -259,7 +303,7 @@ fn clauses(expected: u8) -> Vec<ClauseSpec> {
 }
 
 fn classify_panic(msg: &str) -> Out {
-    if msg.contains("[P1]") || msg.contains("A::a1") || msg.contains("A::a0") {
+    if msg.contains("[P1]") || msg.contains("A::a1") || msg.contains("A::a0") || msg.contains("Cons::rq_") {
         Out::FailVerification
     } else if msg.contains("on a cloned instance") {
         Out::PanicCloneMisuse
@@ -282,12 +326,28 @@ fn unit_or_panic(r: Result<(), String>) -> (Out, Option<String>) {
 
 pub struct RealLife {
     insts: Vec<Option<Unimock>>,
+    consume_kinds: u8,
 }
 
 impl RealLife {
-    fn new(expected: u8) -> Self {
-        let u = new_mock(false, &clauses(expected)).expect("HARNESS: lifecycle mock must construct");
-        RealLife { insts: vec![Some(u)] }
+    fn new(expected: u8, consume_kinds: u8) -> Self {
+        let u = if consume_kinds & 7 == 0 {
+            new_mock(false, &clauses(expected)).expect("HARNESS: lifecycle mock must construct")
+        } else {
+            let mut dc = unimock::verif::DynClause::new();
+            dc.push(crate::build::build_clauses(&clauses(expected)));
+            if consume_kinds & 1 != 0 {
+                dc.push(ConsMock::rq_val.each_call(&|m| m.func(|_, _| true)).answers(&|_, x| x as u32 + 100));
+            }
+            if consume_kinds & 2 != 0 {
+                dc.push(ConsMock::rq_rc.each_call(&|m| m.func(|_, _| true)).answers(&|_, x| x as u32 + 100));
+            }
+            if consume_kinds & 4 != 0 {
+                dc.push(ConsMock::rq_arc.each_call(&|m| m.func(|_, _| true)).answers(&|_, x| x as u32 + 100));
+            }
+            Unimock::new(dc)
+        };
+        RealLife { insts: vec![Some(u)], consume_kinds }
     }
 
     fn alive(&self, i: usize) -> bool {
@@ -413,6 +473,23 @@ impl RealLife {
                     Err(m) => (classify_panic(&m), Some(m)),
                 }
             }
+            Ev::Consume(i, k) => {
+                let (i, k) = (idx(i), k as usize % 3);
+                if !self.alive(i) || (self.consume_kinds >> k) & 1 == 0 {
+                    return (Out::Skipped, None);
+                }
+                let u = self.insts[i].take().unwrap();
+                let r = match k {
+                    0 => catch(move || u.df_val(5)),
+                    1 => catch(move || std::rc::Rc::new(u).df_rc(5)),
+                    _ => catch(move || std::sync::Arc::new(u).df_arc(5)),
+                };
+                match r {
+                    Ok(106) => (Out::CallOk, None),
+                    Ok(v) => (Out::CallPanicked, Some(format!("the by-value default method returned {v}, its body computes 106"))),
+                    Err(m) => (classify_panic(&m), Some(m)),
+                }
+            }
             Ev::NoVerifyInDrop(i) => {
                 let i = idx(i);
                 if !self.alive(i) {
@@ -480,6 +557,7 @@ fn resolve(ev: Ev, model: &LModel) -> Ev {
         Ev::Delegated(s) => Ev::Delegated(m(s)),
         Ev::MakeRefClone(a, b) => Ev::MakeRefClone(m(a), m(b)),
         Ev::MockPanic(s) => Ev::MockPanic(m(s)),
+        Ev::Consume(s, k) => Ev::Consume(m(s), k % 3),
     }
 }
 
@@ -506,8 +584,8 @@ pub struct WorkerReply {
 
 /// Executed inside the worker process.
 pub fn execute(case: &LifeCase) -> WorkerReply {
-    let mut model = LModel::new(case.expected_calls as usize);
-    let mut real = RealLife::new(case.expected_calls);
+    let mut model = LModel::new(case.expected_calls as usize, case.consume_kinds);
+    let mut real = RealLife::new(case.expected_calls, case.consume_kinds);
     let mut classes: std::collections::BTreeSet<String> = Default::default();
     let mut clone_of_clone = false;
     let mut held = false;
@@ -531,6 +609,10 @@ pub fn execute(case: &LifeCase) -> WorkerReply {
                 Ev::CloneOf(i) if i != 0 => clone_of_clone = true,
                 Ev::Delegated(_) | Ev::MakeRefClone(..) => held = true,
                 Ev::Verify(_) | Ev::Report(_) | Ev::DropOnThread(_) | Ev::CallOnThread(_) => consumed = true,
+                Ev::Consume(i, _) => {
+                    consumed = true;
+                    classes.insert(if i == 0 { "original-consumed-by-a-by-value-default-method".to_string() } else { "clone-consumed-by-a-by-value-default-method".to_string() });
+                }
                 _ => {}
             }
             if pre_original_alive && !model.alive(0) {
@@ -608,19 +690,18 @@ pub fn ev_strategy() -> impl Strategy<Value = Ev> {
         1 => i.clone().prop_map(Ev::NoVerifyInDrop),
         2 => i.clone().prop_map(Ev::Delegated),
         2 => (i.clone(), i.clone()).prop_map(|(a, b)| Ev::MakeRefClone(a, b)),
-        1 => i.prop_map(Ev::MockPanic),
+        1 => i.clone().prop_map(Ev::MockPanic),
+        2 => (i, 0..3u8).prop_map(|(a, k)| Ev::Consume(a, k)),
     ]
 }
 
 pub fn case_strategy() -> impl Strategy<Value = LifeCase> {
-    (0..=3u8, vec(ev_strategy(), 0..=16), any::<bool>()).prop_map(|(expected_calls, events, drop_ascending)| LifeCase {
-        expected_calls,
-        events,
-        drop_ascending,
-    })
+    (0..=3u8, vec(ev_strategy(), 0..=16), any::<bool>(), prop_oneof![1 => Just(0u8), 2 => 0..8u8]).prop_map(
+        |(expected_calls, events, drop_ascending, consume_kinds)| LifeCase { expected_calls, events, drop_ascending, consume_kinds },
+    )
 }
 
-pub const RULE: &str = "cases = sequences of up to 16 lifecycle events over a table of up to 6 instances sharing one state (clone of original or of a clone, drop, matching call, drop on another thread, call on another thread, verify(), report(), no_verify_in_drop(), delegated default-method call creating the helper clone, make_ref holding a clone, caught mock-induced panic), expectation exactly 0..3 calls, remaining instances dropped in ascending or descending order; every step's outcome (silent / panic class / exit code) is compared with a lifecycle state-machine model. Non-trivial = the sequence has a clone-of-clone or a helper/value-chain-held clone, and a verify/report/thread move; distinct = distinct sequence";
+pub const RULE: &str = "cases = sequences of up to 16 lifecycle events over a table of up to 6 instances sharing one state (clone of original or of a clone, drop, matching call, drop on another thread, call on another thread, verify(), report(), no_verify_in_drop(), delegated default-method call creating the helper clone, make_ref holding a clone, caught mock-induced panic, consumption by a provided by-value / sole-owner Rc / sole-owner Arc method whose body hands self on to a required method), expectation exactly 0..3 calls, remaining instances dropped in ascending or descending order; every step's outcome (silent / panic class / exit code) is compared with a lifecycle state-machine model. Non-trivial = the sequence has a clone-of-clone or a helper/value-chain-held clone, and a verify/report/thread move; distinct = distinct sequence";
 
 pub fn run(ctx: &Ctx) -> Verdict {
     let mut v = Verdict::new("exploration", RULE);
